@@ -477,9 +477,17 @@ func runTx(eng *streams.Stream, shared public_types.SharedStateI[[]byte], tx Tx)
 		if tx.Full {
 			name = lunar_messages.LunarFullRequest
 		}
+		// HAProxy sends url (host + path), path and query as separate arguments
+		path, query := "", ""
+		if i := strings.Index(tx.URL, "/"); i >= 0 {
+			path = tx.URL[i:]
+		}
+		if i := strings.Index(path, "?"); i >= 0 {
+			path, query = path[:i], path[i+1:]
+		}
 		args := lunar_messages.OnRequest{
 			LunarName: name, ID: tx.ID, SequenceID: tx.ID, Method: tx.Method, Scheme: "https", URL: tx.URL,
-			Headers: headers, RawBody: body, Time: now,
+			Path: path, Query: query, Headers: headers, RawBody: body, Time: now,
 		}
 		api := stream_types.NewRequestAPIStream(args, shared)
 		if args.IsFullRequest() {
